@@ -39,6 +39,8 @@ def ev(t, obs=None, mag=False):
             return ev(t["a"], obs, True) / ev(t["b"], obs, True)
         if k == "powq":
             return ev(t["a"], obs, True) ** (t["n"] / t["d"])
+        if k == "p10":
+            return 10.0 ** ev(t["a"], obs)
     if k == "q":
         return t["n"] / t["d"]
     if k == "tab":
@@ -59,6 +61,8 @@ def ev(t, obs=None, mag=False):
         return -ev(t["a"], obs)
     if k == "abs":
         return np.abs(ev(t["a"], obs))
+    if k == "p10":
+        return 10.0 ** ev(t["a"], obs)
     if k == "powq":
         a = ev(t["a"], obs)
         n, d = t["n"], t["d"]
